@@ -122,6 +122,14 @@ CHECKS = {
     note=('Trusted: Coq kernel (incl. vm_compute), ExtrOcamlBasic, ocaml/driver.ml, Python harness (generator, typed-cell capture, state_out). Modelled, not verified: qvm/eval.py, find_routine, the evaluation half of do_print, Lvalue.type; arithmetic via Models/Fold.v, layout via Models/Layout.v. '
           'Not modelled: the expression parser (the model receives the real tree), float text, QStruct/QArray dumps, function calls. Scalar/element/field theorems carry the premise "the type the debugger assigns is the declared one", false in general inside procedures (D49). Partial exactly where C02 is partial.'),
     technique='Rocq proof over a hand-written Gallina model + differential correspondence judged against the program own values'),
+ 'C16': dict(
+    category='proof',
+    text=('19 closed Rocq theorems. Integers, for EVERY z (unbounded): the text is blank or "-" followed by the plain decimal digits of |z| without leading zeros; Python int() of that text (READ, INPUT) gives z back; the READ/INPUT device models return the cell z in range; VAL of the text is exactly z in the LONG range (and a host SyntaxError beyond: refuted/finding D61). '
+          'Floats, conditional form: the shortest-digit search only returns a candidate that it converted back and found equal (or the exact expansion), at most 17 digits unless the fall-back is taken; PRINT and STR$ show the same text; a DOUBLE and its negation show the same digits; _refuted witnesses for SINGLE negation (D22), SINGLE exponent forms with 17 digits (D22), the D marker (D23), VAL beyond LONG, and half-unit at powers of two. '
+          'Tied to the code: all 65 536 INTEGER values every run, LONG/SINGLE/DOUBLE families (powers of 2 and 10 with neighbours, limits, subnormals, rounding boundaries, random bit patterns) through the real format_number/_exec_ntos/_exec_print and the real READ/INPUT/VAL paths, judged against the property with exact rational arithmetic; compiled programs at 6 configurations.'),
+    design_ref='DESIGN.md 5/C16',
+    note=('Trusted: Coq kernel, ExtrOcamlBasic, OCaml driver, Python harness incl. the Fraction-based oracle. Not proved: the 17-digit existence theorem and correctness of dec_to_fl (checked on every explored value). The numeric_literal grammar is modelled by hand (ASCII). The extracted float model is evaluated on a CPU-budgeted subset of the floats while every value is judged on the real code.'),
+    technique='Rocq proof over hand-written Gallina model + differential correspondence + exact-rational property oracle'),
 }
 
 ALL = ['C%02d' % i for i in range(1, 21)]
